@@ -45,6 +45,7 @@ def run(ctx):
     ctx.call(GR.node_objects, "9")
     ctx.call(GR.cloning, "10")
     ctx.call(GR.worker_symmetry, "12")
+    ctx.call(GR.flat_expansion, "13")
     from . import atoms as A
 
     ctx.call(A.definitions, "11", only=('is_flat','is_object_root','is_shared_root','bridged_nodes','cloned_nodes','id'))
